@@ -170,6 +170,28 @@ def o_xor_ctx(src, klen, dlen, keys):
     return None
 
 
+@C.oracle('rotl_ctx')
+def o_rotl_ctx(src, calls):
+    """amount and group size come from the keyword context or from the data: ONE construct object rotates with different parameters one call
+    after the other; every call gives the rotation the definition prescribes for ITS parameters"""
+    c = C.get(src)
+    for rnd in range(2):
+        for a, g, d in calls:
+            exp_parse, exp_build = ref_rotl(a, g, d), ref_rotl(-a, g, d)
+            if 'this._params' in src:
+                p, b = res(lambda: c.parse(d, n=a, g=g)), res(lambda: c.build(d, n=a, g=g))
+            else:
+                p = res(lambda: c.parse(bytes([a & 255, g]) + d))
+                p = ('ok', p[1].d) if p[0] == 'ok' else p
+                b = res(lambda: c.build(dict(a=a & 255, g=g, d=d)))
+                b = ('ok', b[1][2:]) if b[0] == 'ok' else b
+            if p != ('ok', exp_parse):
+                return 'parse with amount %d, group %d of %r gives %r, the definition gives %r' % (a, g, d, p, exp_parse)
+            if b != ('ok', exp_build):
+                return 'build with amount %d, group %d of %r gives %r, the definition gives %r' % (a, g, d, b, exp_build)
+    return None
+
+
 @C.oracle('unit_transform')
 def o_unit_transform(src, unit, datas):
     """Restreamed / Transformed with a byte-order swap declared over units of several bytes around a read-to-end construct: the wire
@@ -226,6 +248,16 @@ def run(tier, seed):
         for d in datas[:5] + datas[-2:]:
             cases.append(dict(src=src, op='parse', data=d))
             cases.append(dict(src=src, op='build', obj=d))
+    # long payloads (around every power of two up to 64 KiB, lengths that are not multiples of the key length): the key is cycled to the end
+    longs = [G.rand_bytes(rng, n) for n in (255, 256, 257, 511, 513, 1023, 1024, 1025, 1500, 2047, 2049, 4099, 8191, 16385, 32771, 65537)]
+    for k in [0x5a, b'\x01\x02', b'\xff\x00\x7f', bytes(range(1, 8)), bytes(range(1, 65)), bytes(range(1, 66)), bytes(range(100, 200)), b'\x00\x00\x09']:
+        src = 'ProcessXor(%r, GreedyBytes)' % (k,)
+        acc.check('xor', src, key=k, datas=longs if tier == 'thorough' or not isinstance(k, int) else longs[:8])
+        for d in (longs[7], longs[11]):
+            cases.append(dict(src=src, op='parse', data=d))
+            cases.append(dict(src=src, op='build', obj=d))
+    for a, g in [(3, 1), (5, 3), (-7, 4), (12, 2), (8, 5), (63, 8)]:
+        acc.check('rotl', 'ProcessRotateLeft(%d, %d, GreedyBytes)' % (a, g), amount=a, group=g, datas=[G.rand_bytes(rng, g * m) for m in (300, 1025, 4099)])
     cases.append(dict(src='Struct("k"/Byte, "d"/ProcessXor(this.k, GreedyBytes))', op='parse', data=b'\x5a\x01\x02\x03'))
     cases.append(dict(src='Struct("k"/Bytes(2), "d"/ProcessXor(this.k, Int32ub))', op='parse', data=b'\x5a\xa5\x01\x02\x03\x04'))
     for unit in (2, 3, 4):
@@ -277,6 +309,10 @@ def run(tier, seed):
     for src, klen, dlen in [('Struct("k"/Byte, "d"/ProcessXor(this.k, Bytes(4)))', 0, 4), ('Struct("k"/Bytes(1), "d"/ProcessXor(this.k, Bytes(3)))', 1, 3),
                             ('Struct("k"/Bytes(2), "d"/ProcessXor(this.k, Bytes(5)))', 2, 5), ('Struct("k"/Bytes(3), "d"/ProcessXor(this.k, FixedSized(4, GreedyBytes)))', 3, 4)]:
         acc.check('xor_ctx', src, klen=klen, dlen=dlen, keys=[2, 3, 0, 255, 2, 90])
+    rcalls = [(a, g, bytes(range(1, 2 * g + 1))) for a, g in [(12, 2), (12, 4), (4, 2), (4, 4), (4, 3), (13, 4), (13, 2), (8, 2), (8, 4), (8, 3), (20, 2), (20, 4), (36, 4), (36, 8), (3, 1), (3, 5), (1, 2), (1, 7)]]
+    for src in ('ProcessRotateLeft(this._params.n, this._params.g, GreedyBytes)', 'Struct("a"/Byte, "g"/Byte, "d"/ProcessRotateLeft(this.a, this.g, GreedyBytes))'):
+        acc.check('rotl_ctx', src, calls=rcalls)
+        acc.check('rotl_ctx', src, calls=rcalls[::-1])
     # zero-size swapped / transformed regions read nothing
     for z in ('ByteSwapped(Bytes(0))', 'BitsSwapped(Bytes(0))', 'ByteSwapped(Struct())', 'BitsSwapped(Array(0, Byte))'):
         zsrc, zplain = 'Struct("z"/%s, "r"/GreedyBytes)' % z, 'Struct("z"/%s, "r"/GreedyBytes)' % z.split('(', 1)[1][:-1]
